@@ -160,8 +160,11 @@ Section PathSame.
 
   Lemma plain_param_field : forall t, wire_plain t = true -> param_field t = (infer t, snd (is_opt t)).
   Proof.
-    intros t Hp. unfold param_field. destruct t; simpl in *; try discriminate; try reflexivity.
-    rewrite plain_not_data by exact Hp. reflexivity.
+    intros t Hp. unfold param_field.
+    assert (forall u, wire_plain u = true -> is_data (unwrap_ann u) = false) as Hu
+      by (intros u Hq; destruct u; simpl in *; try discriminate; try reflexivity; apply plain_not_data; exact Hq).
+    destruct t; simpl in *; try discriminate; try reflexivity;
+      first [rewrite Hu by exact Hp | rewrite plain_not_data by exact Hp]; reflexivity.
   Qed.
 
   Lemma param_path_same : forall t v v',
